@@ -250,11 +250,12 @@ class _Rewrite(ast.NodeTransformer):
                     self.changed += 1
                     out += r
                     continue
-            if isinstance(st, ast.AnnAssign) and st.value is not None and st.simple and isinstance(st.target, ast.Name):
+            if isinstance(st, ast.AnnAssign) and st.value is not None and isinstance(
+                    st.target, (ast.Name, ast.Attribute, ast.Subscript)):
                 self.changed += 1
                 out.append(ast.copy_location(ast.Assign(targets=[st.target], value=st.value, type_comment=None), st))
                 continue
-            if isinstance(st, ast.AnnAssign) and st.value is None and isinstance(st.target, ast.Name):
+            if isinstance(st, ast.AnnAssign) and st.value is None:
                 self.changed += 1
                 continue          # a bare declaration `x: int`
             if isinstance(st, ast.Expr) and isinstance(st.value, ast.Call) and isinstance(st.value.func, ast.Attribute) \
